@@ -51,7 +51,7 @@ def main():
             out["suite"] = {"passed": sum(int(x[1]) for x in res), "failed": sum(int(x[2]) for x in res),
                             "compiled": bool(res)}
         try:
-            res = seedscan.evaluate(W, "-benignext")
+            res = seedscan.evaluate(W, "-benignext" + os.path.basename(W).replace("jawk-mut", ""))
         except ex.ExtractError as e:
             print(sid, "EXTRACT-FAILED", str(e)[-300:], flush=True)
             continue
